@@ -74,6 +74,9 @@ def _task(kind, prop, tier, arg=None):
     if kind == 'D':
         from .. import zfold
         return zfold.verify(prop, only=arg)
+    if kind == 'O':
+        from .. import zops
+        return zops.verify(prop)
     if kind == 'Q':
         from .. import zqr
         which, kind = arg
@@ -104,6 +107,8 @@ def deductive_all(prop, tier='quick'):
     from .. import zfold, zshape
     tasks += [('D', prop, tier, c['fn']) for c in zfold.contracts() if prop in c['props']]
     tasks += [('H', prop, tier, name) for name, (mk, props) in zshape.CONTRACTS.items() if prop in props]
+    if prop in ('C04', 'C08', 'C09', 'C10'):
+        tasks.append(('O', prop, tier, None))
     if len(tasks) <= 4 and prop not in ('C12', 'C13'):
         out = []
         for t in tasks:
